@@ -40,6 +40,14 @@ def run(prog, rep):
     rep.part(sample_size, prog, rep)
     rep.part(cache, prog, rep)
     rep.part(cache_key, prog, rep)
+    # "draw_sample equals inverse(base.draw_sample)" with the same seed, and cdf agrees with the empirical cdf of its own samples: the sample
+    # behind both is a NEW draw of the base model from one generator made of the seed - the rows of C07.fresh and of C07.rng for the model samplers
+    from vstat.report import Relabel
+    from .purity import fresh_draw
+    from . import c07
+    rep.part(fresh_draw, prog, Relabel(rep, "C16.draws", lambda r, inst: True), "C16.draws")
+    rep.part(c07.rng, prog, Relabel(rep, "C16.draws", lambda r, inst: r == "C07.rng" and ("GlobalHierarchicalModel.draw_sample" in inst or "TransformedModel" in inst or "MultivariateModel" in inst)))
+    rep.expect_min("C16.draws", 4)
     rep.expect_min("C16.window", 1)
     rep.expect_min("C16.cache", 1)
     rep.explanation += (" C16.window: the upper end of the rejection sampler's abscissa window lies where the density is negligible - a search that shrinks the "
